@@ -43,6 +43,12 @@ var Targets = []target{
 	{"ReadInputRegistersRTU", 4, specref.RTU, false, 125, (*modbus.Builder).ReadInputRegistersRTU},
 }
 
+// Accessors for other checks.
+func (t target) FC() uint8                                               { return t.fc }
+func (t target) Framing() specref.Framing                                { return t.fr }
+func (t target) Name() string                                            { return t.name }
+func (t target) Call(b *modbus.Builder) ([]modbus.BuilderRequest, error) { return t.call(b) }
+
 var latticeAddrs []int
 
 type proto struct {
